@@ -24,18 +24,19 @@ def main():
     for fi, (anns_list, probes) in enumerate(GD.families("quick")):
         ov = Ovld(name=f"fam{fi}")
         fns = []
-        npos = len(anns_list[0])
+        pos0, kw0 = GD._split(anns_list[0])
+        npos = len(pos0)
+        kwn = [n_ for n_, _ in kw0]
         for hi, anns in enumerate(anns_list):
-            g = {f"T{k}": a for k, a in enumerate(anns)}
-            exec(f"def h{hi}(" + ", ".join(f"a{k}: T{k}" for k in range(npos)) + f"):\n    return 'h{hi}'\n", g)
-            fns.append(g[f"h{hi}"])
-            ov.register(g[f"h{hi}"])
-        g = {}
-        exec("def base(" + ", ".join(f"a{k}: object" for k in range(npos)) + "):\n    return 'base'\n", g)
-        ov.register(g["base"])
+            fns.append(GD.make_handler(f"h{hi}", anns))
+            ov.register(fns[-1])
+        ov.register(GD.make_handler("base", [object] * npos + [GD.KW(n_, object) for n_ in kwn]))
         from ovld.types import normalize_type
         from ovld.dependent import is_dependent
 
+        # flatten: positional annotations, then the keyword-only ones (in declaration order)
+        anns_list = [[a for a in GD._split(anns)[0]] + [a for _, a in GD._split(anns)[1]] for anns in anns_list]
+        probes = [[e[2] if (isinstance(e, tuple) and e and e[0] == "kw") else e for e in probe] for probe in probes]
         norm = [[normalize_type(a, None) for a in anns] for anns in anns_list]
         static_only = [all(not is_dependent(t) for t in row) for row in norm]
         label = "|".join(",".join(map(repr, a)) for a in anns_list).replace("typing.", "")
@@ -68,7 +69,7 @@ def main():
                         pass
                 dep_matches = [h for h in matches if not static_only[h]]
                 try:
-                    got = ov(*vals)
+                    got = ov(*vals[:npos], **dict(zip(kwn, vals[npos:])))
                 except TypeError as e:
                     s = str(e)
                     got = "AMBIGUOUS" if s.startswith("Ambiguous") else "NOMETHOD" if s.startswith("No method") else f"TypeError:{s[:50]}"
